@@ -569,6 +569,9 @@ func runDisputeHistory(t *testing.T, seed int64) (string, map[string]int, string
 		steps = append(steps, coqStep(res, w.snap(), nil))
 		stats[fmt.Sprintf("%s/%d", res.name, res.result)]++
 	}
+	for _, a := range []int{1, nVals + 3, w.team} {
+		w.s.MintTokens(w.accts[a], math.NewInt(200_000*loyaPerTRB))
+	}
 	init := w.snap()
 	if tippers {
 		block(time.Duration(1+r.Intn(3))*time.Second, func() {
@@ -616,7 +619,9 @@ func runDisputeHistory(t *testing.T, seed int64) (string, map[string]int, string
 	}
 	// backers of reporter 0 redelegate part of the reported stake (to one or two other validators) after the report: a
 	// slash larger than what is left at the source validator has to follow the stake to its destinations
+	redelegated := false
 	if r.Intn(3) == 0 && !valGone {
+		redelegated = true
 		block(time.Duration(1+r.Intn(3))*time.Second, func() {
 			for _, a := range []int{0, nVals, nVals + 1, nVals + 2} {
 				if r.Intn(3) == 0 {
@@ -716,6 +721,9 @@ func runDisputeHistory(t *testing.T, seed int64) (string, map[string]int, string
 		// share is found in the unbonding entries
 		cat = pick(r, disputetypes.Warning, disputetypes.Minor)
 	}
+	if redelegated && !slashed && r.Intn(3) != 0 {
+		cat = disputetypes.Major // the slash exceeds what is left at the source validators
+	}
 	pct := map[disputetypes.DisputeCategory]int64{disputetypes.Warning: 100, disputetypes.Minor: 20, disputetypes.Major: 1}[cat]
 	full := bquo(bmul(new(big.Int).SetUint64(rep.Power), bi(loyaPerTRB)), bi(pct))
 	proposer := pick(r, 1, nVals+3, w.team)
@@ -736,6 +744,14 @@ func runDisputeHistory(t *testing.T, seed int64) (string, map[string]int, string
 		rounds = 1
 		choice = pick(r, disputetypes.VoteEnum_VOTE_INVALID, disputetypes.VoteEnum_VOTE_SUPPORT)
 		first = full
+	}
+	// sub-scenario (one history in six): reporter 1 pays the first part of the fee from its balance and the rest from the
+	// stake selected to it, the dispute ends INVALID or SUPPORT and the refund goes back to both sources
+	mixedPay := !refundAfterJail && !valGone && r.Intn(6) == 0
+	if mixedPay {
+		proposer, fromBond, rounds = 1, false, 1
+		first = pick(r, bquo(full, bi(2)), bquo(full, bi(3)), bquo(bmul(full, bi(3)), bi(4)), bquo(full, bi(10)))
+		choice = pick(r, disputetypes.VoteEnum_VOTE_INVALID, disputetypes.VoteEnum_VOTE_SUPPORT)
 	}
 	if valGone {
 		cat = disputetypes.Major
@@ -783,11 +799,14 @@ func runDisputeHistory(t *testing.T, seed int64) (string, map[string]int, string
 		block(time.Duration(1+r.Intn(5))*time.Second, func() {
 			if round == 1 {
 				propose(first, fromBond)
-				if first.Cmp(full) < 0 && r.Intn(4) != 0 {
+				if first.Cmp(full) < 0 && (mixedPay || r.Intn(4) != 0) {
 					payer := pick(r, proposer, nVals+3)
+					if mixedPay {
+						payer = 1
+					}
 					roles := w.backersOf(rep)
 					// the same reporter pays the first part from its balance and the rest from the stake selected to it
-					secondFromBond := payer == 1 && proposer == 1 && !fromBond && r.Intn(2) == 0
+					secondFromBond := payer == 1 && proposer == 1 && !fromBond && (mixedPay || r.Intn(2) == 0)
 					if secondFromBond {
 						for k, v := range w.selectorsOf(payer) {
 							roles[k] = v
